@@ -23,6 +23,9 @@ def alphabet():
         ("swaps", ((0, 1), (1, 0))), ("swaps", ((2, 3), (3, 2))), ("swaps", ((0, 2), (2, 1), (1, 0))), ("swaps", ((1, 3), (3, 1))),
         ("ps", 0), ("ps", 2), ("bs", 0, 1, "Rx"), ("bs", 2, 1, "H"), ("bs", 0, 3, "H"), ("bs", 3, 0, "H"), ("bs", 1, 3, "Rx"), ("bs", 3, 1, "H"),
         ("loss", 1), ("barrier",), ("um", 1, 2), ("group", 2), ("hgroup", 1),
+        # a loss element whose value is exactly zero (it still owns a loss mode of U_full); a plain group at mode 0 (after a heralded group it spans that
+        # group's ancilla mode)
+        ("loss0", 2), ("group", 0),
     ]
 
 
@@ -41,6 +44,8 @@ def build(env, prog, params=None, observe=False):
             c.bs(comp[1], comp[2], reflectivity=(params[idx] if params else env.const(F(idx + 2, 9))), convention=comp[3])
         elif k == "loss":
             c.loss(comp[1], params[idx] if params else env.const(F(idx + 1, 5)))
+        elif k == "loss0":
+            c.loss(comp[1], params[idx] if params else env.const(0))
         elif k == "barrier":
             c.barrier()
         elif k == "um":
@@ -137,7 +142,16 @@ def programs(tier):
     for _ in range(400 if tier == "quick" else 3000):
         L = rnd.choice((3, 4, 5))
         progs.append(tuple(rnd.choice(swaps) if rnd.random() < 0.55 else rnd.choice(A) for _ in range(L)))
-    return progs
+    # swaps on both sides of every kind of group, with and without an earlier heralded group whose ancilla mode the later group spans: the group must
+    # block every mode of its (ancilla-widened) range
+    groups = [a for a in A if a[0] in ("group", "hgroup")]
+    for g in groups:
+        for s1 in swaps:
+            for s2 in (swaps if tier == "thorough" else swaps[::2] + [s1]):
+                progs.append((s1, g, s2))
+                if g[0] == "group":
+                    progs.append((("hgroup", 1), s1, g, s2))
+    return list(dict.fromkeys(progs))
 
 
 def plabel(prog, rws):
